@@ -97,9 +97,12 @@ fn main() -> Result<()> {
     let names: BTreeMap<&str, &str> = [("a", "test:aaa"), ("b", "test:bbb"), ("c", "test:ccc")].into_iter().collect();
     // abstract versions 1 < 2 < 3 are rendered on ONE semver track, so that "a newer compatible
     // release" exists for a pinned key
-    let versions: BTreeMap<u64, &str> = [(1, "1.0.0"), (2, "1.1.0"), (3, "1.2.0")].into_iter().collect();
+    // (4 is a pre-release of a that sorts between 1 and 2: Registry_pre.cfg; the other models never ask for it
+    // and it is never the latest release)
+    let versions: BTreeMap<u64, &str> = [(1, "1.0.0"), (2, "1.1.0"), (3, "1.2.0"), (4, "1.1.0-rc.1")].into_iter().collect();
     let mut published: BTreeMap<(String, u64), Vec<u8>> = BTreeMap::new();
     published.insert(("a".into(), 1), content('x', 64));
+    published.insert(("a".into(), 4), content('w', 2_000));
     published.insert(("a".into(), 2), content('y', 600_000));
     published.insert(("b".into(), 1), content('z', 30_000));
     let addr = server_rt.block_on(async {
